@@ -78,7 +78,7 @@ fn op_strategy(big: bool) -> impl Strategy<Value = Op> {
     ]
 }
 
-fn case_strategy(max_lg: u8, max_ops: usize) -> impl Strategy<Value = Case> {
+pub fn case_strategy(max_lg: u8, max_ops: usize) -> impl Strategy<Value = Case> {
     (
         5u8..=max_lg,
         0u8..4,
@@ -177,7 +177,7 @@ fn check(sk: &ThetaSketch, m: &mut Model, full: bool, ctx: &str) -> Result<(), F
     Ok(())
 }
 
-fn run_case(c: &Case, info: &mut CaseInfo) -> Result<(), Fail> {
+pub fn run_case(c: &Case, info: &mut CaseInfo) -> Result<(), Fail> {
     let p = p_of(c.p);
     let k = 1usize << c.lg_k;
     let build = || ThetaSketch::builder().lg_k(c.lg_k).resize_factor(rf_of(c.rf)).sampling_probability(p).seed(c.seed).build();
